@@ -507,6 +507,7 @@ extern "C" void __asan_unpoison_memory_region(void const volatile* addr, size_t 
 }  // extern "C" (re-opened below)
 namespace xs {
 bool g_reuse_mode = false;
+int g_fill_byte = 0;   // plan field `fill`: contents of fresh (uninitialised) heap and stack memory; 0 = ASan's 0xbe / leftovers
 static std::unordered_map<size_t, std::vector<void*>> g_pool;
 static std::unordered_set<void*> g_pooled;
 void reuse_reset(bool on) { g_reuse_mode = on; g_pool.clear(); g_pooled.clear(); }
@@ -518,11 +519,13 @@ static void* pool_alloc(size_t n, bool zero) {
       it->second.pop_back();
       g_pooled.erase(p);
       __asan_unpoison_memory_region(p, n);
-      memset(p, zero ? 0 : 0xbe, n);
+      memset(p, zero ? 0 : g_fill_byte ? g_fill_byte : 0xbe, n);
       return p;
     }
   }
-  return zero ? calloc(1, n) : malloc(n);
+  void* p = zero ? calloc(1, n) : malloc(n);
+  if (p && !zero && g_fill_byte) memset(p, g_fill_byte, n);
+  return p;
 }
 static void pool_free(void* p, size_t n, bool known) {
   if (!p) return;
@@ -570,9 +573,12 @@ void* xs_realloc(void* old, size_t n) {
       return p;
     }
   }
+  size_t osz_fill = 0;
+  if (old && g_fill_byte) { auto it = g_live.find((uintptr_t)old); osz_fill = it != g_live.end() ? it->second.size : n; }
   if (old) alloc_forget(old, "realloc");
   void* p = realloc(old, n);
   if (n == 0 && !p) return p;
+  if (p && g_fill_byte && osz_fill < n) memset((char*)p + osz_fill, g_fill_byte, n - osz_fill);   // the grown part is uninitialised
   alloc_record(p, n, "realloc", s0, s1);
   return p;
 }
@@ -592,21 +598,26 @@ void* xs_reallocarray(void* old, size_t a, size_t b) {
     alloc_record(p, n, "reallocarray", s0, s1);
     return p;
   }
+  size_t osz_fill = 0;
+  if (old && g_fill_byte) { auto it = g_live.find((uintptr_t)old); osz_fill = it != g_live.end() ? it->second.size : n; }
   if (old) alloc_forget(old, "reallocarray");
   void* p = realloc(old, n);
   if (n == 0 && !p) return p;
+  if (p && g_fill_byte && osz_fill < n) memset((char*)p + osz_fill, g_fill_byte, n - osz_fill);
   alloc_record(p, n, "reallocarray", s0, s1);
   return p;
 }
 void* xs_aligned_alloc(size_t al, size_t n) {
   if (alloc_gate(n, "aligned_alloc")) return nullptr;
   void* p = aligned_alloc(al, n);
+  if (p && g_fill_byte) memset(p, g_fill_byte, n);
   alloc_record(p, n, "aligned_alloc", RA0, ra1());
   return p;
 }
 void* xs_memalign(size_t al, size_t n) {
   if (alloc_gate(n, "memalign")) return nullptr;
   void* p = aligned_alloc(al, (n + al - 1) / al * al);
+  if (p && g_fill_byte) memset(p, g_fill_byte, n);
   alloc_record(p, n, "memalign", RA0, ra1());
   return p;
 }
@@ -614,12 +625,14 @@ void* xs_valloc(size_t n) {
   if (alloc_gate(n, "valloc")) return nullptr;
   void* p = nullptr;
   if (posix_memalign(&p, 4096, n)) p = nullptr;
+  if (p && g_fill_byte) memset(p, g_fill_byte, n);
   alloc_record(p, n, "valloc", RA0, ra1());
   return p;
 }
 int xs_posix_memalign(void** out, size_t al, size_t n) {
   if (alloc_gate(n, "posix_memalign")) return ENOMEM;
   int r = posix_memalign(out, al, n);
+  if (r == 0 && g_fill_byte) memset(*out, g_fill_byte, n);
   if (r == 0) alloc_record(*out, n, "posix_memalign", RA0, ra1());
   return r;
 }
